@@ -1493,6 +1493,13 @@ class Qobj:
         if bra.type not in ('bra', 'ket') or ket.type not in ('bra', 'ket'):
             msg = "Can only calculate matrix elements between a bra and a ket."
             raise TypeError(msg)
+        left_space = bra._dims[0] if bra.isket else bra._dims[1]
+        right_space = ket._dims[0] if ket.isket else ket._dims[1]
+        if left_space != self._dims[0] or right_space != self._dims[1]:
+            raise TypeError(
+                f"incompatible dimensions {bra.dims}, {self.dims} "
+                f"and {ket.dims}"
+            )
         left, op, right = bra.data, self.data, ket.data
         if ket.isbra:
             right = right.adjoint()
@@ -1534,6 +1541,16 @@ class Qobj:
         ):
             msg = "only bras, kets and density matrices have defined overlaps"
             raise TypeError(msg)
+        spaces = [
+            [q._dims[0]] if q.isket
+            else [q._dims[1]] if q.isbra
+            else [q._dims[0], q._dims[1]]
+            for q in (self, other)
+        ]
+        if any(a != b for a in spaces[0] for b in spaces[1]):
+            raise TypeError(
+                f"incompatible dimensions {self.dims} and {other.dims}"
+            )
         left, right = self._data.adjoint(), other.data
         if self.isoper or other.isoper:
             if not self.isoper:
